@@ -114,6 +114,7 @@ static void random_call(vrng *r, wcall *c, bool allow_null, bool allow_big)
         if (op == W_RAW_NULL) { c->len = len; return; }
         bool cstr = (op == W_STRING || op == W_NAME);
         c->len = len;
+        if (len == 0 && !cstr && op != W_RAW && vrn(r, 2)) { c->data = NULL; return; }     /* (NULL, 0): an empty value as std::vector::data() hands it over */
         c->data = vg_exact(cstr ? len + 1 : len);
         for (size_t i = 0; i < len; i++) { uint8_t v = (uint8_t)vr64(r); if (cstr && v == 0) v = 0x80; c->data[i] = v; }
         if (cstr) c->data[len] = 0;
